@@ -43,6 +43,12 @@ impl GasInfo {
     /// in `other.variable_values`. Panics otherwise, printing the differences.
     /// We allow branch align values to be different, as they do not affect generated code directly.
     pub fn assert_eq_variables(&self, other: &GasInfo, program: &Program) {
+        assert!(self.eq_variables(other, program), "Comparison failed.");
+    }
+
+    /// Returns whether all non-branch align values in `self.variable_values` are equal to the
+    /// values in `other.variable_values`, printing the differences.
+    pub fn eq_variables(&self, other: &GasInfo, program: &Program) -> bool {
         let branch_align_id: Option<_> = program.libfunc_declarations.iter().find_map(|fd| {
             (fd.long_id.generic_id.0 == BranchAlignLibfunc::STR_ID).then_some(&fd.id)
         });
@@ -67,12 +73,18 @@ impl GasInfo {
                 fail = true;
             }
         }
-        assert!(!fail, "Comparison failed.");
+        !fail
     }
 
     /// Asserts that all the cost of functions in `self` are equal to the costs in `other`.
     /// Panics otherwise, printing the differences.
     pub fn assert_eq_functions(&self, other: &GasInfo) {
+        assert!(self.eq_functions(other), "Comparison failed.");
+    }
+
+    /// Returns whether all the cost of functions in `self` are equal to the costs in `other`,
+    /// printing the differences.
+    pub fn eq_functions(&self, other: &GasInfo) -> bool {
         let mut fail = false;
         for key in chain!(self.function_costs.keys(), other.function_costs.keys()) {
             let self_val = self.function_costs.get(key);
@@ -91,7 +103,7 @@ impl GasInfo {
                 fail = true;
             }
         }
-        assert!(!fail, "Comparison failed.");
+        !fail
     }
 }
 
